@@ -128,6 +128,14 @@ Definition wm_api_source_def (st : wm_state) (d : srcdef) : wm_state * N :=
     ({| wm_st_base := wm_b_set_source_head (wm_b_set_raw b r2) sh; wm_st_srcs := so_id d :: wm_st_srcs st;
         wm_st_sigs := wm_st_sigs st |}, 0).
 
+(* ---- jls_core_signal_def_validate (core.c): the data type word; ids and signal type are checked by the caller ---- *)
+Definition wm_dt_valid (dt : N) : bool :=
+  let k := N.land dt 65535 in
+  existsb (N.eqb k) [JLS_DATATYPE_I4; JLS_DATATYPE_I8; JLS_DATATYPE_I16; JLS_DATATYPE_I24; JLS_DATATYPE_I32; JLS_DATATYPE_I64;
+                     JLS_DATATYPE_U1; JLS_DATATYPE_U4; JLS_DATATYPE_U8; JLS_DATATYPE_U16; JLS_DATATYPE_U24; JLS_DATATYPE_U32;
+                     JLS_DATATYPE_U64; JLS_DATATYPE_F32; JLS_DATATYPE_F64]
+  && negb (negb (N.land (N.shiftr dt 16) 255 =? 0) && (N.land dt 15 =? 4)).      (* q != 0 on a float type; bits 24..31 are not looked at *)
+
 (* ---- jls_core_signal_def_align (core.c) ----
    signal_def_defaults: per-width table for 1 4 8 16 24(=32's) 32 64 (every valid data type has one; other
    widths get no defaults and no clamp); annotation/utc decimate factors default to the 32-bit table's and are
@@ -180,7 +188,10 @@ Definition wm_sig_align (d : sigdef) : option sigdef :=
       match wm_round_up spd1 sdf with
       | None => None
       | Some spd2 =>
-        let epd := wm_fit_epd (N.to_nat (spd2 / sdf)) eps (spd2 / sdf) in
+        (* the C counts down from spd2 / sdf; every value above eps fails the test (eps / epd = 0, eps >= 10), so
+           starting at min (spd2 / sdf) eps gives the same result with fuel bounded by eps *)
+        let epd0 := N.min (spd2 / sdf) eps in
+        let epd := wm_fit_epd (N.to_nat epd0) eps epd0 in
         let spd := sdf * epd in
         if wm_u32_max / 2 <? (spd * w) / 8 then None
         else if wm_u32_max / 2 <? eps * JLS_SUMMARY_FSR_COUNT * 8 then None
@@ -205,7 +216,7 @@ Definition wm_api_signal_def (st : wm_state) (d0 : sigdef) : wm_state * N :=
   else match wm_find_sig st (sg_id d0) with Some _ => (st, JLS_ERROR_ALREADY_EXISTS) | None =>
   if negb ((sg_type d0 =? JLS_SIGNAL_TYPE_FSR) || (sg_type d0 =? JLS_SIGNAL_TYPE_VSR)) then (st, JLS_ERROR_PARAMETER_INVALID)
   else if negb (wm_str_fits (sg_name d0) && wm_str_fits (sg_units d0)) then (st, JLS_ERROR_TOO_BIG)
-  else if negb (dt_valid (sg_dtype d0)) then (st, JLS_ERROR_PARAMETER_INVALID)         (* jls_core_signal_def_validate *)
+  else if negb (wm_dt_valid (sg_dtype d0)) then (st, JLS_ERROR_PARAMETER_INVALID)         (* jls_core_signal_def_validate *)
   else match wm_sig_align d0 with None => (st, JLS_ERROR_PARAMETER_INVALID) | Some d =>     (* jls_core_signal_def_align *)
     if (sg_type d =? JLS_SIGNAL_TYPE_FSR) && (sg_rate d =? 0) then (st, JLS_ERROR_PARAMETER_INVALID)
     else
